@@ -702,7 +702,7 @@ def mon_c15(res):
         if (fp["vis"] == "pub") != t["pub"]:
             fails.append(dict(clause="C15.get_vis", detail=tpath))
         if is_enum:
-            want = "unsafe (brace * (paren (i %d -) as * const Self))" % t["singleton"]
+            want = "unsafe (brace (paren (i %d -) as * const Self) . read (paren))" % t["singleton"]
             ret = "Self"
         else:
             want = "unsafe (brace let ptr : * mut Self = * (paren (i %d usize) as * mut * mut Self) ; ptr . as_mut (paren))" % t["singleton"]
@@ -1091,6 +1091,21 @@ PROPS["C14"] = dict(
                "and checks prologue-first / epilogue-last / foreign text absent from the generated texts.",
     level_note="Trusted: Coq kernel; model validated by this run's correspondence. Not modelled: glob, directory creation, file writes (exercised through the real build). A user type named like a generated "
                "<T>Vftable struct is known finding F4b.",
+)
+
+import c13  # noqa: E402
+PROPS["C13"] = dict(
+    runner=c13.runner, aspects=["verdict"], n=(200, 3000), corpus=["common", "C13"],
+    profile=dict(p_pub=1.0, p_backend=0.2, p_markers=0.4, modules=(1, 3), p_nested_mod=0.4, p_vftable=0.4, p_base=0.4, p_impl=0.5),
+    rule="gen.py with every item public (the property's fragment: public types for cross-module use), power-of-two alignments, arrays of <= 5 elements, 1..3 modules incl. nested ones, "
+         "at pointer width 8; every accepted crate among the first 48 (quick) / 1500 (thorough) is assembled (module tree, extern types supplied, ABI strings normalised to \"C\") and "
+         "type-checked by rustc; non-trivial = distinct accepted crate that went through rustc",
+    level_text="Proved in Coq (Properties/C13.v, each theorem named _partial): every path in a resolved type is a registry entry; the size-check transmute is between equal sizes; the alignment attribute is a power of two; "
+               "Default is satisfiable for defaultable types. Whether rustc accepts the whole crate is NOT a theorem: it is decided on every run by rustc itself on the implementation's emitted files (the monitor/oracle). "
+               "On the unchanged tree rustc rejects only inputs in listed known-finding classes (F9, F10, F12a-c, F13, F14, F17, F19), each recognised by error code plus a predicate on the input; any other rejection is a violation.",
+    level_note="Trusted: Coq kernel for the partial theorems; rustc 1.95 (host, 64-bit) as the authority on type-checking; the crate assembly of tools/rustc_oracle.py (module tree, supplied extern types, ABI normalisation as the property allows). "
+               "Struct/enum definitions for i686-pc-windows-msvc are not compiled in this check (layout at pointer width 4 is covered by C01/C02's independent calculator).",
+    technique="Coq proofs of the clauses pyxis itself must guarantee + rustc type-check oracle on the emitted crate",
 )
 
 NOT_YET = {}
